@@ -886,6 +886,38 @@ fn check_tripoint<T: Sc>(o: &mut Out, case: &Case, p: &[Coord<T>], ex: &[XP], wo
         judge(o, case, "triangle_contains_coord", site, inside, call(|| bname(t.contains(&q))));
         judge(o, case, "triangle_intersects_coord", site, hit, call(|| bname(t.intersects(&q))));
     }
+    // Triangle x Triangle: second triangles built from the query point and coordinates of the first
+    // (mixing existing x and y values keeps the exact images available), both operand orders
+    let mk = |x: usize, y: usize| (Coord { x: p[x].x, y: p[y].y }, (ex[x].0, ex[y].1));
+    let seconds: [[(Coord<T>, XP); 3]; 3] = [[mk(3, 3), mk(3, 0), mk(1, 3)], [mk(3, 3), mk(0, 0), mk(2, 3)], [mk(3, 3), mk(0, 1), mk(2, 0)]];
+    for (n, s2) in seconds.iter().enumerate() {
+        let (u, v, w) = (s2[0].1, s2[1].1, s2[2].1);
+        if x_orient(u, v, w) == 0 {
+            o.st.add("observe_only:degenerate_second_triangle");
+            continue;
+        }
+        let (t1x, t2x) = ([ex[0], ex[1], ex[2]], [u, v, w]);
+        let mut meet = t2x.iter().any(|&z| x_tri_loc(ex[0], ex[1], ex[2], z) != Loc3::E) || t1x.iter().any(|&z| x_tri_loc(u, v, w, z) != Loc3::E);
+        for i in 0..3 {
+            for j in 0..3 {
+                meet |= x_segseg(t1x[i], t1x[(i + 1) % 3], t2x[j], t2x[(j + 1) % 3]) != SegK::None;
+            }
+        }
+        o.st.add(if meet { "tritri:intersecting" } else { "tritri:disjoint" });
+        let (lo1, hi1) = (t1x.iter().map(|z| z.1).min().unwrap(), t1x.iter().map(|z| z.1).max().unwrap());
+        let (lo2, hi2) = (t2x.iter().map(|z| z.1).min().unwrap(), t2x.iter().map(|z| z.1).max().unwrap());
+        let (xlo1, xhi1) = (t1x.iter().map(|z| z.0).min().unwrap(), t1x.iter().map(|z| z.0).max().unwrap());
+        let (xlo2, xhi2) = (t2x.iter().map(|z| z.0).min().unwrap(), t2x.iter().map(|z| z.0).max().unwrap());
+        if meet && (hi1 == lo2 || hi2 == lo1 || xhi1 == xlo2 || xhi2 == xlo1) {
+            o.st.add("tritri:envelopes_touch_only");
+        }
+        let t1 = Triangle(p[0], p[1], p[2]);
+        let t2 = Triangle(s2[0].0, s2[1].0, s2[2].0);
+        let site = ["Triangle x Triangle(q,qx.ay,bx.qy)", "Triangle x Triangle(q,a,cx.qy)", "Triangle x Triangle(q,ax.by,cx.ay)"][n];
+        let siter = ["Triangle(q,qx.ay,bx.qy) x Triangle", "Triangle(q,a,cx.qy) x Triangle", "Triangle(q,ax.by,cx.ay) x Triangle"][n];
+        judge(o, case, "triangle_intersects_triangle", site, bname(meet), call(|| bname(t1.intersects(&t2))));
+        judge(o, case, "triangle_intersects_triangle", siter, bname(meet), call(|| bname(t2.intersects(&t1))));
+    }
     let t = Triangle::new(p[0], p[1], p[2]);
     judge(o, case, "triangle_coordinate_position", "Triangle::new", loc.name(), call(|| pos_name(t.coordinate_position(&q))));
     judge(o, case, "triangle_contains_coord", "Triangle.contains(Point)", inside, call(|| bname(t.contains(&Point(q)))));
